@@ -539,6 +539,180 @@ macro_rules! shape {
                     }
                 }
 
+                // ---- the closure-taking combinators once more with a callable that captures 320 bytes by
+                // value (closures of recursive-descent parsers carry their context): same table rows
+                for &r in &recvs {
+                    let big = [0u64; 40];
+                    let want_ok_calls = if r == Recv::Ok { 1 } else { 0 };
+                    {
+                        let calls = Cell::new(0);
+                        let got: Parsed<U, E> = recv(r).map(move |t| {
+                            let z = std::hint::black_box(&big)[7] as u32;
+                            U::mk(t.0 + 200 + z)
+                        });
+                        let _ = &calls;
+                        let exp = match r {
+                            Recv::Fall => "Fallthrough",
+                            Recv::Ok => "Res(Ok(U(211)))",
+                            Recv::Err => "Res(Err(E(21)))",
+                        };
+                        push(format!("bigclosure:map/{:?}", r), obs(show(&got), 0, "".into()), obs(exp.into(), 0, "".into()));
+                    }
+                    {
+                        let calls = Cell::new(0);
+                        let c = &calls;
+                        let got: Parsed<T, E2> = recv(r).map_err(move |e| {
+                            c.set(c.get() + 1);
+                            let z = std::hint::black_box(&big)[9] as u32;
+                            E2::mk(e.0 + 300 + z)
+                        });
+                        let exp = match r {
+                            Recv::Fall => "Fallthrough",
+                            Recv::Ok => "Res(Ok(T(11)))",
+                            Recv::Err => "Res(Err(E2(321)))",
+                        };
+                        push(
+                            format!("bigclosure:map_err/{:?}", r),
+                            obs(show(&got), calls.get(), "".into()),
+                            obs(exp.into(), if r == Recv::Err { 1 } else { 0 }, "".into()),
+                        );
+                    }
+                    for &cont_ok in &[true, false] {
+                        let calls = Cell::new(0);
+                        let c = &calls;
+                        let got: Parsed<U, E> = recv(r).and_then(move |t| {
+                            c.set(c.get() + 1);
+                            let z = std::hint::black_box(&big)[1] as u32;
+                            if cont_ok {
+                                Ok(U::mk(t.0 + 100 + z))
+                            } else {
+                                Err(E::mk(23 + z))
+                            }
+                        });
+                        let exp = match (r, cont_ok) {
+                            (Recv::Fall, _) => "Fallthrough",
+                            (Recv::Ok, true) => "Res(Ok(U(111)))",
+                            (Recv::Ok, false) => "Res(Err(E(23)))",
+                            (Recv::Err, _) => "Res(Err(E(21)))",
+                        };
+                        push(
+                            format!("bigclosure:and_then/{:?}/cont_ok={}", r, cont_ok),
+                            obs(show(&got), calls.get(), "".into()),
+                            obs(exp.into(), want_ok_calls, "".into()),
+                        );
+                    }
+                    for &cont_ok in &[true, false] {
+                        let calls = Cell::new(0);
+                        let c = &calls;
+                        let got = recv(r).and_also(move |t| {
+                            c.set(c.get() + 1);
+                            let z = std::hint::black_box(&big)[2] as u32;
+                            t.0 += 500 + z;
+                            if cont_ok {
+                                Ok(())
+                            } else {
+                                Err(E::mk(24 + z))
+                            }
+                        });
+                        let exp = match (r, cont_ok) {
+                            (Recv::Fall, _) => "Fallthrough",
+                            (Recv::Ok, true) => "Res(Ok(T(511)))",
+                            (Recv::Ok, false) => "Res(Err(E(24)))",
+                            (Recv::Err, _) => "Res(Err(E(21)))",
+                        };
+                        push(
+                            format!("bigclosure:and_also/{:?}/cont_ok={}", r, cont_ok),
+                            obs(show(&got), calls.get(), "".into()),
+                            obs(exp.into(), want_ok_calls, "".into()),
+                        );
+                    }
+                    {
+                        let calls = Cell::new(0);
+                        let c = &calls;
+                        let got = recv(r).and_do(move |t| {
+                            c.set(c.get() + 1);
+                            t.0 += 500 + std::hint::black_box(&big)[3] as u32;
+                        });
+                        let exp = match r {
+                            Recv::Fall => "Fallthrough",
+                            Recv::Ok => "Res(Ok(T(511)))",
+                            Recv::Err => "Res(Err(E(21)))",
+                        };
+                        push(
+                            format!("bigclosure:and_do/{:?}", r),
+                            obs(show(&got), calls.get(), "".into()),
+                            obs(exp.into(), want_ok_calls, "".into()),
+                        );
+                    }
+                    for &alt in &recvs {
+                        let calls = Cell::new(0);
+                        let c = &calls;
+                        let got = recv(r).or_parse(move || {
+                            c.set(c.get() + 1);
+                            let z = std::hint::black_box(&big)[4] as u32;
+                            match alt {
+                                Recv::Fall => Fallthrough,
+                                Recv::Ok => Res(Ok(T::mk(12 + z))),
+                                Recv::Err => Res(Err(E::mk(22 + z))),
+                            }
+                        });
+                        let exp = match (r, alt) {
+                            (Recv::Fall, Recv::Fall) => "Fallthrough",
+                            (Recv::Fall, Recv::Ok) => "Res(Ok(T(12)))",
+                            (Recv::Fall, Recv::Err) => "Res(Err(E(22)))",
+                            (Recv::Ok, _) => "Res(Ok(T(11)))",
+                            (Recv::Err, _) => "Res(Err(E(21)))",
+                        };
+                        push(
+                            format!("bigclosure:or_parse/{:?}/alt={:?}", r, alt),
+                            obs(show(&got), calls.get(), "".into()),
+                            obs(exp.into(), if r == Recv::Fall { 1 } else { 0 }, "".into()),
+                        );
+                    }
+                    for &alt_ok in &[true, false] {
+                        let calls = Cell::new(0);
+                        let c = &calls;
+                        let got = recv(r).or_always_parse(move || {
+                            c.set(c.get() + 1);
+                            let z = std::hint::black_box(&big)[5] as u32;
+                            if alt_ok {
+                                Ok(T::mk(12 + z))
+                            } else {
+                                Err(E::mk(22 + z))
+                            }
+                        });
+                        let exp = match (r, alt_ok) {
+                            (Recv::Fall, true) => "Ok(T(12))",
+                            (Recv::Fall, false) => "Err(E(22))",
+                            (Recv::Ok, _) => "Ok(T(11))",
+                            (Recv::Err, _) => "Err(E(21))",
+                        };
+                        push(
+                            format!("bigclosure:or_always_parse/{:?}/alt_ok={}", r, alt_ok),
+                            obs(show_r(&got), calls.get(), "".into()),
+                            obs(exp.into(), if r == Recv::Fall { 1 } else { 0 }, "".into()),
+                        );
+                    }
+                    {
+                        let calls = Cell::new(0);
+                        let c = &calls;
+                        let got = recv(r).or_give_up(move || {
+                            c.set(c.get() + 1);
+                            E::mk(99 + std::hint::black_box(&big)[6] as u32)
+                        });
+                        let exp = match r {
+                            Recv::Fall => "Err(E(99))",
+                            Recv::Ok => "Ok(T(11))",
+                            Recv::Err => "Err(E(21))",
+                        };
+                        push(
+                            format!("bigclosure:or_give_up/{:?}", r),
+                            obs(show_r(&got), calls.get(), "".into()),
+                            obs(exp.into(), if r == Recv::Fall { 1 } else { 0 }, "".into()),
+                        );
+                    }
+                }
+
                 // ---- From<Result> and ResultExt on {Ok, Err}
                 for &ok in &[true, false] {
                     let res = |ok: bool| -> Result<T, E> {
@@ -667,20 +841,24 @@ shape!(widen_large, "shape=widen(16->136):", u64, [u64; 16], [u64; 16]);
 shape!(narrow, "shape=narrow(136->4):", [u64; 16], (), ());
 shape!(to_heap, "shape=widen(&str-like->String):", u64, String, String);
 
-fn cells() -> Vec<Cell15> {
+/// `subset`: only the shapes whose handling could go wrong at the memory level (drop glue, large moves,
+/// over-alignment) - what the Miri layer runs
+fn cells(subset: bool) -> Vec<Cell15> {
     let mut v = plain::cells();
-    v.extend(odd::cells());
     v.extend(big136::cells());
-    v.extend(big328::cells());
     v.extend(heap::cells());
     v.extend(boxed::cells());
-    v.extend(wide::cells());
     v.extend(aligned::cells());
-    v.extend(widen_small::cells());
-    v.extend(widen_mid::cells());
-    v.extend(widen_large::cells());
-    v.extend(narrow::cells());
     v.extend(to_heap::cells());
+    if !subset {
+        v.extend(odd::cells());
+        v.extend(big328::cells());
+        v.extend(wide::cells());
+        v.extend(widen_small::cells());
+        v.extend(widen_mid::cells());
+        v.extend(widen_large::cells());
+        v.extend(narrow::cells());
+    }
     v
 }
 
@@ -800,13 +978,15 @@ fn compose_ref(tokens: &[u8]) -> (Result<Vec<u8>, (usize, u8)>, Vec<usize>) {
 
 pub struct C15 {
     pub max_len: usize,
+    pub subset: bool,
 }
 
 impl Monitor for C15 {
     fn case(&mut self, idx: u64, _rng: &mut Rng, rep: &mut Report) {
         // case 0: the complete cell table; case k>0: all token strings of length k-1 over {a,b,c,d,e,z}
         if idx == 0 {
-            let cs = crate::work::sut(cells);
+            let subset = self.subset;
+            let cs = crate::work::sut(|| cells(subset));
             for (name, size, align, conv) in shape_sizes() {
                 rep.extra.insert(
                     format!("shape:{}", name),
@@ -815,7 +995,9 @@ impl Monitor for C15 {
                         .set("align_of_Parsed<T,E>", J::u(align))
                         .set("size_of_T_U_E_E2", J::A(conv.iter().map(|&x| J::u(x)).collect())),
                 );
-                rep.inc("shapes");
+                if !subset || ["unit", "[u64;16]", "String", "Box", "align64", "widen(->String)"].contains(&name) {
+                    rep.inc("shapes");
+                }
             }
             for c in &cs {
                 rep.inc("cells");
